@@ -253,6 +253,46 @@ def sec_constant(rec, patches=None):
     _sc(rec)
 
 
+def sec_constant_symbolic(rec, kind="zncc", shape=(1, 2, 2), patches=None):
+    """division safety, symbolically: the model is executed on a sub-volume whose voxels all equal a symbolic constant c (zeros included), with a symbolic
+    template and mask; every division and square root met on the way must be well defined (divisor != 0, radicand >= 0) -- then shift and score are finite"""
+    from . import c07
+
+    L = c07._load(patches)
+    CC = L["acryo.alignment._concrete"]
+    xp = L.xp
+    rec.encodes("acryo/alignment/_base.py:BaseAlignmentModel.align / landscape (constant sub-volume)", "acryo/alignment/_concrete.py:" + {"zncc": "ZNCCAlignment", "ncc": "NCCAlignment", "fsc": "FSCAlignment"}[kind],
+                "acryo/backend/_zncc.py:ncc_landscape_no_pad (variance guard)", "acryo/backend/_fsc.py:fsc_landscape (zero-power guard)")
+    rec.assume("exact reals: a float division x/0 or sqrt of a negative number is what makes a result non-finite; FFT stub exact (sides 1, 2)")
+    Model = {"zncc": CC.ZNCCAlignment, "ncc": CC.NCCAlignment, "fsc": CC.FSCAlignment}[kind]
+    t, mk = c07.img("t", shape), c07.img("m", shape)
+    c = real("c")
+    rp = c07.replay_constant(kind)
+    for with_mask in (False, True):
+        for what, ms in (("align", (0, 0, 0)), ("landscape", (0, 0, 0)), ("landscape", (0, 0, 1)), ("landscape", (0, 1, 1))):
+            tag = f"constant-symbolic[{kind},{shape},mask={int(with_mask)}]/{what}{ms}"
+
+            def run():
+                a = c07.img("a", shape) * 0 + c
+                m = Model(t, mk if with_mask else None)
+                return getattr(m, what)(a, ms, backend=xp)
+
+            paths = explore(run, max_paths=60)
+            nob = 0
+            for pi, p in enumerate(paths):
+                if not p.ok:
+                    rec.fact(f"{tag}/path{pi}/runs", False, key=f"C05/finite-score[{kind}]", detail={"exc": repr(p.exc)[:200]}, reproduced=rp({})[0])
+                    continue
+                for oi, (lab, cond, npc, ndef) in enumerate(p.obligations):
+                    if lab in ("div0", "sqrt-domain"):
+                        nob += 1
+                        rec.query(f"{tag}/path{pi}/{lab}#{oi}", [p.cond_at(npc, ndef)], cond, key=f"C05/finite-score[{kind}]", replay=rp, twin=False, nonlinear=True, timeout_ms=20000)
+                if what == "align":
+                    for k in range(3):
+                        rec.query(f"{tag}/path{pi}/shift{k}=0", [p.condition()], zr(p.result.shift[k]) == 0, key=f"C05/finite-score[{kind}]", replay=rp, twin=False)
+            rec.extra[tag] = {"paths": len(paths), "divisions-and-roots": nob}
+
+
 def sec_units(rec, patches=None):
     """every loader / loader-group entry point converts max_shifts (nm) with the scale of the loader the molecules belong to: executed by C01's units section"""
     from .c01 import sec_units as _su
@@ -298,7 +338,10 @@ def sec_conformance(rec):
 
 
 def sections(tier):
-    S = [("conformance", "checks.c05", "sec_conformance", {}), ("normalize", "checks.c05", "sec_normalize", {}), ("constant-subvolume", "checks.c05", "sec_constant", {}), ("loader-units", "checks.c05", "sec_units", {}),
+    S = [("conformance", "checks.c05", "sec_conformance", {}), ("normalize", "checks.c05", "sec_normalize", {}), ("constant-subvolume", "checks.c05", "sec_constant", {}),
+         ("constant-symbolic-zncc", "checks.c05", "sec_constant_symbolic", {"kind": "zncc", "shape": (1, 2, 2)}),
+         ("constant-symbolic-ncc", "checks.c05", "sec_constant_symbolic", {"kind": "ncc", "shape": (1, 1, 2)}),
+         ("constant-symbolic-fsc", "checks.c05", "sec_constant_symbolic", {"kind": "fsc", "shape": (1, 2, 2)}), ("loader-units", "checks.c05", "sec_units", {}),
          ("upsample-int", "checks.c05", "sec_upsample", {"coarse": "int"}), ("upsample-ceil", "checks.c05", "sec_upsample", {"coarse": "ceil"})]
     boxes = [(4, 4, 4), (5, 6, 7)] if quick(tier) else [(4, 4, 4), (5, 6, 7), (8, 8, 8), (7, 4, 9)]
     oth = [(0.0, 1.3)] if quick(tier) else [(0.0, 1.3), (0.5, 0.0), (2.0, 0.7)]
